@@ -120,6 +120,13 @@ class OpStub:
         c.scratch["minimize_calls"] = k + 1
         n = len(x0)
         x = np.empty(n, dtype=object)
+        if "sym_call" in c.scratch and c.scratch.get("cur_call", 0) != c.scratch["sym_call"]:
+            # calls not selected as symbolic return a fixed interior point (cuts the cross product of snapping forks)
+            from fractions import Fraction as _F
+
+            for i in range(n):
+                x[i] = _F(37 + 11 * ((k + i) % 5), 100)
+            return MinimizeResult(x)
         for i in range(n):
             v = c.real(f"minimize{k}_{i}")
             lo, hi = bounds[i]
@@ -174,6 +181,42 @@ def index_rng(seed=None):
     return IndexGenerator(seed)
 
 
+class ObjectRealGenerator:
+    """The real numpy generator (concrete draws), handing floats out as exact rationals in object arrays so that symbolic
+    values can later be stored next to them."""
+
+    def __init__(self, seed=None):
+        from fractions import Fraction as _F
+
+        self._g = np.random.default_rng(seed)
+        self._F = _F
+        self.bit_generator = self._g.bit_generator
+
+    def _obj(self, a):
+        if isinstance(a, np.ndarray) and a.dtype.kind == "f":
+            out = np.empty(a.shape, dtype=object)
+            for idx in np.ndindex(*a.shape):
+                out[idx] = self._F(float(a[idx]))
+            return out
+        return a
+
+    def random(self, size=None, **kw):
+        return self._obj(self._g.random(size=size, **kw))
+
+    def integers(self, *a, **kw):
+        return self._g.integers(*a, **kw)
+
+    def choice(self, a, size=None, replace=True, **kw):
+        if isinstance(a, np.ndarray) and a.dtype == object:
+            idx = self._g.choice(len(a), size=size, replace=replace)
+            return a[idx]
+        return self._g.choice(a, size=size, replace=replace, **kw)
+
+
+def object_real_rng(seed=None):
+    return ObjectRealGenerator(seed)
+
+
 class _LinalgStub:
     @staticmethod
     def norm(x, *a, **k):
@@ -194,14 +237,14 @@ class _NPCors(NpProxy):
 
 
 @contextlib.contextmanager
-def sampler_world(rng=sym_default_rng, identity_digitize=False):
+def sampler_world(rng=sym_default_rng, identity_digitize=False, stub_rbf=False):
     Learner.log = []
     names = {}
     if identity_digitize:
         names["digitize_data"] = lambda data, grid: data
     with patched(sbase, np=NPX, print=_noprint), patched(shalton, np=NPX, range=sym_range, **names), patched(srseq, np=NPX, **names), \
             patched(sru, np=NPX), patched(sbest, np=NPX, betabinom=betabinom_stub), patched(spso, np=NPX, **names), \
-            patched(ssur, np=NPX, **names), patched(scors, np=_NPCors(), op=OpStub, print=_noprint, **names), \
+            patched(ssur, np=NPX, **names), patched(scors, np=_NPCors(), op=OpStub, print=_noprint, rbf=(lambda points, losses: (lambda x: 0.0)) if stub_rbf else scors.rbf, **names), \
             patched(sxgb, np=NPX, xgb=XgbStub), patched(srf, np=NPX, RandomForestClassifier=Learner), \
             patched(sgp, np=NPX, GaussianProcessRegressor=Learner, kernels=KernelsStub, erfc=erfc_stub), \
             patched(ss, np=NPX, print=_noprint), patched(ubase, np=NPX), \
